@@ -101,10 +101,13 @@ def check_atoms(m, tag, aromatic=False, h3=True):
     none_expected = []
     for n, a in m.atoms():
         envn = atom_env(m, n)
-        if aromatic:
-            exp = O.expected_with_aromatic(a.atomic_symbol, a.charge, a.is_radical, envn)
+        arom = any(o == 4 for o, _ in envn)
+        if arom:
+            cand = []
+            exp = O.expected_with_aromatic(a.atomic_symbol, a.charge, a.is_radical, envn) if aromatic else None
         else:
-            exp = O.expected(a.atomic_symbol, a.charge, a.is_radical, envn)
+            cand = O.candidates(a.atomic_symbol, a.charge, a.is_radical, [x for x in envn if x[0] != 8])
+            exp = cand[0] if cand else None
         if exp is None:
             none_expected.append(n)
         if a.implicit_hydrogens != exp:
@@ -112,10 +115,6 @@ def check_atoms(m, tag, aromatic=False, h3=True):
                         f'[{envtext(envn)}] has implicit_hydrogens={a.implicit_hydrogens}, the element tables give {exp}',
                         {'atom': n, 'library': a.implicit_hydrogens, 'reference': exp}))
         if h3 and a.atomic_symbol != 'H':
-            if any(o == 4 for o, _ in envn):
-                cand = []
-            else:
-                cand = O.candidates(a.atomic_symbol, a.charge, a.is_radical, [x for x in envn if x[0] != 8])
             for h in range(5):
                 got = m.check_implicit(n, h)
                 if got != (h in cand):
